@@ -18,6 +18,8 @@ def descriptors(type_names, shapes, prios):
     for sh in shapes:
         names = TYPED[sh]
         for types in itertools.product(type_names, repeat=len(names)):
+            if len([p for p in parse_shape(SHAPES[sh]) if p[1] == "K"]) >= 2 and types[0] != type_names[0]:
+                continue  # two-keyword shapes: the positional parameter is not what varies
             for pr in prios:
                 out.append((sh, types, pr))
     return out
@@ -60,6 +62,10 @@ def calls_for(type_names, shapes, value_names=None):
             for k in sorted(kws):
                 for kv in type_names:
                     out.append((args, {k: kv}))
+            # two keywords at once, passed in both orders (the order of a call's keywords must not matter)
+            for k1, k2 in itertools.permutations(sorted(kws), 2):
+                for v1, v2 in itertools.product(type_names, repeat=2):
+                    out.append((args, {k1: v1, k2: v2}))
     return out
 
 
@@ -77,12 +83,14 @@ def static_spaces(tier):
         sp.append(("d:shapes,n<=2,L<=2", H(0, 2), ["x", "xy", "xy?", "x*k", "x*k?"], (0,), 1, 2, False))
         sp.append(("d3:shapes,n<=1,L=3", H(0, 1), ["x", "xy", "xy?", "x*k", "x*k?"], (0,), 3, 3, False))
         sp.append(("z:all-optional shapes (zero-argument calls),n<=2,L<=3,prio", H(0, 2), ["x?", "x?y?", "x"], (0, 1), 1, 3, False))
+        sp.append(("k2:two typed keyword-only parameters in either declaration order / one optional,n<=2,L=2", H(1, 2), ["x*kj", "x*jk", "x*j?k", "x*kj?"], (0,), 2, 2, False))
     else:
         sp.append(("A:1pos,n<=5,L<=4,prio", H(0, 5), ["x"], (0, 1), 1, 4, False))
         sp.append(("B:2pos,n<=3,L<=3,prio", H(0, 3), ["xy"], (0, 1), 1, 3, False))
         sp.append(("C:2pos,n=4,L<=3,prio", H(4, 4), ["xy"], (0, 1), 1, 3, False))
         sp.append(("D:shapes,n<=2,L<=3", H(0, 2), ["x", "xy", "xy?", "x*k", "x*k?"], (0,), 1, 3, False))
         sp.append(("Z:all-optional shapes (zero-argument calls),n<=3,L<=3,prio", H(0, 3), ["x?", "x?y?", "x", "x*k?"], (0, 1), 1, 3, False))
+        sp.append(("K2:two typed keyword-only parameters in either declaration order / one optional,n<=2,L<=3", H(1, 2), ["x*kj", "x*jk", "x*j?k", "x*kj?"], (0, 1), 2, 3, False))
         sp.append(("E:3pos+kw,n<=2,L<=2", H(0, 2), ["xyz", "xy*k", "xy"], (0, 1), 1, 2, False))
         sp.append(("E3:3pos+kw,n<=1,L=3", H(0, 1), ["xyz", "xy*k", "xy"], (0,), 3, 3, False))
         sp.append(("F:3pos,n=3,L<=2", H(3, 3), ["xyz"], (0, 1), 1, 2, False))
